@@ -44,6 +44,8 @@ def stage(scratch):
         d = os.path.join(scratch, sub)
         shutil.copytree(os.path.join(REPO, "src"), os.path.join(d, "src"))
         shutil.copytree(os.path.join(REPO, "include"), os.path.join(d, "include"))
+        os.makedirs(os.path.join(d, "doc"))
+        shutil.copy(os.path.join(REPO, "doc", "rfc3986_grammar_only.txt"), os.path.join(d, "doc"))
         gen_config(os.path.join(d, "src"))
     return scratch
 
@@ -312,10 +314,11 @@ def rename_selfcalls(vdir, fname, funcs):
         while i < hi:
             if (toks[i][1] == "URI_FUNC" and toks[i + 1][1] == "(" and toks[i + 2][1] == f and toks[i + 3][1] == ")"
                     and toks[i + 4][1] == "("):
-                edits.append(toks[i + 2][3])
+                edits.append((toks[i + 2][3], toks[i + 3][3]))
             i += 1
-        for off in sorted(edits, reverse=True):
-            text = text[:off] + "/*@RN{*/__rec/*@}RN*/" + text[off:]
+        for off_name, off_paren in sorted(edits, reverse=True):
+            # the marker comment goes behind the closing parenthesis (a comment inside the argument would break uri##x##A)
+            text = text[:off_name] + "__rec" + text[off_name:off_paren] + "/*@RN*/" + text[off_paren:]
         n_total += len(edits)
     open(path, "w").write(text)
     return n_total
@@ -413,7 +416,7 @@ def inject_waivers(vdir):
 def verify_undo(vdir):
     """strip everything the staging added to the variant directory and compare with /repo byte for byte"""
     lc = re.compile(r" " + re.escape(MARK_B) + r".*?" + re.escape(MARK_E) + r" ", re.S)
-    rn = re.compile(re.escape("/*@RN{*/__rec/*@}RN*/"))
+    rn = re.compile(r"__rec\)/\*@RN\*/")
     wl = re.compile(r"/\*@WL\{(.*?)\}\*/.*?/\*@\}WL\*/", re.S)
     wv = re.compile(r"/\*@WV\{\*/.*?/\*@\}WV\*/", re.S)
     for sub in ("src", "include/uriparser"):
@@ -425,7 +428,7 @@ def verify_undo(vdir):
             orig = open(p, "rb").read()
             q = os.path.join(vdir, sub, fn)
             got = open(q, "rb").read().decode("utf-8", "surrogateescape")
-            got = wv.sub("", wl.sub(lambda m: m.group(1), rn.sub("", lc.sub("", got)))).encode("utf-8", "surrogateescape")
+            got = wv.sub("", wl.sub(lambda m: m.group(1), rn.sub(")", lc.sub("", got)))).encode("utf-8", "surrogateescape")
             if got != orig:
                 raise StageError("staged %s differs from /repo after undoing the injection" % q)
     return True
